@@ -121,12 +121,22 @@ impl Stats {
 pub struct Finding {
     pub property: String,
     pub status: String,
+    #[serde(default)]
     pub signature: String,
+    /// Further signatures with the same root cause.
+    #[serde(default)]
+    pub signatures: Vec<String>,
     pub what: String,
     #[serde(default)]
     pub input: Value,
     #[serde(default)]
     pub commit: Option<String>,
+}
+
+impl Finding {
+    pub fn matches(&self, sig: &str) -> bool {
+        self.signature == sig || self.signatures.iter().any(|s| s == sig)
+    }
 }
 
 pub struct Violation {
@@ -290,7 +300,7 @@ impl Ctx {
     }
 
     fn is_known(&self, sig: &str) -> bool {
-        !self.strict && self.known_open.iter().any(|f| f.signature == sig)
+        !self.strict && self.known_open.iter().any(|f| f.matches(sig))
     }
 
     /// Record a case in `st`; returns Err(sig) when the case is an unlisted failure.
@@ -583,11 +593,12 @@ impl Ctx {
             return 2;
         }
         for f in &self.known_open {
-            let n = st.excluded_known.get(&f.signature).copied().unwrap_or(0);
+            let n: u64 = st.excluded_known.iter().filter(|(k, _)| f.matches(k)).map(|(_, v)| *v).sum();
+            let name = if f.signature.is_empty() { f.signatures.first().cloned().unwrap_or_default() } else { f.signature.clone() };
             if n > 0 {
-                println!("KNOWN-FINDING: property={} {} [signature={} hits={}]", self.prop, f.what, f.signature, n);
+                println!("KNOWN-FINDING: property={} {} [signature={} hits={}]", self.prop, f.what, name, n);
             } else {
-                println!("note: known finding {} was not reproduced by this run", f.signature);
+                println!("note: known finding {} was not reproduced by this run", name);
             }
         }
         println!(
